@@ -304,6 +304,76 @@ def truthiness_uses(f, name):
 
 
 
+
+
+# ------------------------------------------------------------------ an override that no longer runs the base implementation
+CHAINED_METHODS = ("__init__", "configure_scheduler", "_restore_from_state", "get_state", "on_trial_error", "on_tuning_start", "on_tuning_end",
+                   "__setstate__", "__getstate__")
+NO_SUPER_OK = {
+    ("NoOptimization", "__init__"): "deliberately sets nothing up (its optimize() returns the candidate unchanged and reads no attribute)",
+}
+
+
+def overrides_without_base_call(ctx, cls):
+    """[(method, base method)] overrides of the chained protocol methods (constructors, configure_scheduler, state save /
+    restore, tuning start / end) that do not call the next implementation in the MRO on every normal path, although that
+    implementation does something"""
+    P = ctx.P
+    out = []
+    for mname in CHAINED_METHODS:
+        m = cls.methods.get(mname)
+        if m is None or (cls.name, mname) in NO_SUPER_OK:
+            continue
+        nxt = P.lookup_method(cls, mname, after=cls)
+        if nxt is None or nxt.cls is None:
+            continue
+        body = [s_ for s_ in nxt.node.body if not (isinstance(s_, ast.Expr) and isinstance(s_.value, ast.Constant))]
+        if not body or all(isinstance(s_, (ast.Pass, ast.Raise)) for s_ in body):
+            continue
+        cm = cfg_of(m)
+        sup = {nd.id for nd in cm.nodes for x in cm.node_walk(nd.id) if isinstance(x, ast.Call) and fn_name(x) == mname and isinstance(x.func, ast.Attribute) and (
+            (isinstance(x.func.value, ast.Call) and fn_name(x.func.value) == "super") or
+            (isinstance(x.func.value, ast.Name) and x.func.value.id[:1].isupper()))}
+        if not sup or cm.path([cm.entry], cm.exit, deleted=sup, skip_labels=("exc",)) is not None:
+            out.append((m, nxt))
+    return out
+
+# ------------------------------------------------------------------ an argument that names another parameter of its callee
+ARG_NAME_OK = {
+    # (function, callee, parameter it is passed for): reason
+    ("list_experiments", "load_experiment", "download_if_not_found"):
+        "a genuine slip of the repository outside the 20 properties: `load_tuner` is passed where `download_if_not_found` is expected "
+        "(the tuner is never loaded by list_experiments; results, metadata and best_config are not affected)",
+}
+
+
+def argument_name_mismatches(f):
+    """[(call, parameter, argument text)] a call of one of the program's own functions whose argument is a variable / attribute
+    named like ANOTHER parameter of that callee (`mode=metric`, or positionally `f(b, a)` for `def f(a, b)`): two values of
+    the same type changed places, which no test of a single configuration notices"""
+    from ..engine import _SIG
+    out = []
+    for x in walk_shallow(f.node, include_lambda=True):
+        if not isinstance(x, ast.Call) or any(isinstance(a, ast.Starred) for a in x.args):
+            continue
+        sigs = _SIG.get(fn_name(x)) or set()
+        if not sigs:
+            continue
+
+        def nm(a):
+            last = a.id if isinstance(a, ast.Name) else (a.attr if isinstance(a, ast.Attribute) else None)
+            return last.lstrip("_") if last else None
+        if len(sigs) == 1:
+            ps = [p.lstrip("_") for p in next(iter(sigs))]
+            for i, a in enumerate(x.args[:len(ps)]):
+                if nm(a) is not None and nm(a) != ps[i] and nm(a) in ps:
+                    out.append((x, next(iter(sigs))[i], U(a)))
+        allp = {p.lstrip("_") for s_ in sigs for p in s_}
+        for kw_ in x.keywords:
+            if kw_.arg and nm(kw_.value) is not None and kw_.arg.lstrip("_") in allp and nm(kw_.value) in allp and nm(kw_.value) != kw_.arg.lstrip("_"):
+                out.append((x, kw_.arg, U(kw_.value)))
+    return out
+
 # ------------------------------------------------------------------ a looked-up number defaulted by `or`
 _NUMF = {"min", "max", "abs", "float", "int", "round", "sum", "maximum", "minimum", "sqrt", "log", "exp"}
 
@@ -670,10 +740,23 @@ def cross_cutting(ctx, rep, prop):
                 bad += 1
                 rep.bad("X", "guarded_by", f"{f.short}: optional number `{p_}` is tested with `is None`, not for truth", f, u,
                         f"`{U(u)[:70]}` treats `{p_} = 0` as 'not given'")
+        for call_, par_, txt_ in argument_name_mismatches(f):
+            if (f.name, fn_name(call_), par_) in ARG_NAME_OK:
+                continue
+            bad += 1
+            rep.bad("X", "agreement", f"{f.short}: `{txt_}` is not passed for another parameter of {fn_name(call_)}", f, call_,
+                    f"`{txt_}` is passed for parameter `{par_}` of {fn_name(call_)}, which has a parameter of that very name: two arguments changed places")
         for u in numeric_lookup_or_default(f):
             bad += 1
             rep.bad("X", "guarded_by", f"{f.short}: a looked-up number is defaulted on absence, not on falsity", f, u,
                     f"`{U(u)[:70]}` replaces a stored 0 by the default: the lookup needs `.get(key, default)` / an `is None` test")
+    for c_ in sorted({f.cls for f in funcs if f.cls is not None}, key=lambda c_: c_.qualname if hasattr(c_, "qualname") else c_.name):
+        for m_, base_ in overrides_without_base_call(ctx, c_):
+            bad += 1
+            rep.bad("X", "must_follow", f"{c_.name}.{m_.name} runs the implementation it overrides ({base_.cls.name}.{m_.name})", m_, None,
+                    f"{c_.name}.{m_.name} can return without calling {base_.cls.name}.{m_.name}: what the base class sets up, registers, saves or restores "
+                    "is missing in this subclass")
     rep.put(bad == 0, "X", "cross_cutting", f"cross-cutting lints over the {len(files)} anchored file(s)", None, None,
             f"{len(funcs)} functions: no dropped value, shared fresh container, ascending index deletion, mutation while iterating, "
-            "forgetful accumulator or truthiness test on an optional number")
+            "forgetful accumulator, truthiness test on an optional number, looked-up number defaulted by `or`, argument named like another "
+            "parameter of its callee, or chained override that skips its base implementation")
